@@ -394,6 +394,13 @@ impl Prop for C18 {
         let has_read_fault = case.faults.iter().any(|f| f.op == 1);
         x.nontrivial = !case.inst.cons.is_empty() || !case.inst.objective.terms.is_empty();
 
+        // the path may already hold a (longer) file: write_file replaces it
+        if case.hash_seed % 4 == 0 {
+            x.begin_op(99);
+            let junk: Vec<u8> = (0..1500u32).map(|i| (i.wrapping_mul(2654435761) >> 24) as u8).collect();
+            std::fs::write(&path, if case.hash_seed % 8 == 0 { junk } else { crate::model::gz::pack(&crate::model::gz::Gz::Flate(6), &junk) }).expect("harness: pre-existing file");
+            x.count("probe.path_already_holds_a_file");
+        }
         // op 0: write
         x.begin_op(0);
         let w = x.sut(|| ommx::mps::write_file(&inst, &path));
@@ -635,6 +642,6 @@ impl Prop for C18 {
         vec!["libc read/write/open/close/getrandom/clock_gettime entry points (simulated: fault plan applied, then the real system call)"]
     }
     fn required_probes(&self, _t: Tier) -> Vec<&'static str> {
-        vec!["fault.enospc", "fault.eio_read", "fault.eintr_read", "fault.short_read", "fault.short_write", "fault.open_fail", "probe.nonlinear_refusal_case", "probe.write_err_after_hard_fault", "probe.read_err_after_hard_fault", "probe.file_larger_than_flate2_buffer", "sys.write", "sys.read", "sys.getrandom"]
+        vec!["fault.enospc", "fault.eio_read", "fault.eintr_read", "fault.short_read", "fault.short_write", "fault.open_fail", "probe.nonlinear_refusal_case", "probe.write_err_after_hard_fault", "probe.read_err_after_hard_fault", "probe.file_larger_than_flate2_buffer", "probe.path_already_holds_a_file", "sys.write", "sys.read", "sys.getrandom"]
     }
 }
